@@ -5,7 +5,9 @@
      LLE  N shift tshift <nbrs> <kern N*N>                 -> OK <N*N rationals> | OOB s i n | SOLVEFAIL i
      LTSA N d rsk shift <nbrs> <E: N blocks of k*k>        -> OK <N*N> | OOB s i n
      HLLE shipped N d <nbrs> <V: N blocks of k*d>          -> OK <N*N> | OOB s i n | SOLVEFAIL i  (Gram-Schmidt column with u.u = 0)
-     EIGC N tol <nbrs> <kern N*N> <E: N blocks k*k> <lam: N blocks k>   -> OK b_0 .. b_{N-1}   (1 = contract holds)
+     EIGC N cnt tol <nbrs> <kern N*N> <E: cnt blocks k*k> <lam: cnt blocks k>   -> OK b_0 .. b_{cnt-1}  (1 = contract holds;
+          extracted eig_contract_b against the model's centred Gram of samples 0..cnt-1)
+     LOCB N <nbrs> <kern N*N>                              -> OK <N blocks k*k>  the matrices the local eigensolver sees (model)
      EMB  N d tol centred opt <M N*N> <Y N*d>              -> V <0|1|2|3>
      MCHK N tol mu <M N*N>                                 -> V <0|1|2>   (1 not symmetric, 2 M 1 <> mu 1)
    Anything unparsable -> "BAD <message>". *)
@@ -137,12 +139,13 @@ let () =
              print_result n (c08_hlle_run shipped (nat_of_int n) (nat_of_int d) nb v)
            | "EIGC" ->
              let n = next_int () in
+             let cnt = next_int () in
              let tol = next_q () in
              let nb = next_nbrs n in
              let k = match nb with [] -> 0 | l :: _ -> List.length l in
              let kern = c08_mof (next_mat n n) in
-             let es = next_list n (fun () -> c08_mof (next_mat k k)) in
-             let lams = next_list n (fun () -> c08_vof (next_list k next_q)) in
+             let es = next_list cnt (fun () -> c08_mof (next_mat k k)) in
+             let lams = next_list cnt (fun () -> c08_vof (next_list k next_q)) in
              let nbr = c08_nbrs_of nb in
              Buffer.clear buf;
              Buffer.add_string buf "OK";
@@ -151,6 +154,20 @@ let () =
                  let b = c08_mof (c08_local_gram (nat_of_int k) kern (nbr (nat_of_int i))) in
                  Buffer.add_string buf (if c08_eig_contract_b (nat_of_int k) tol b e lam then " 1" else " 0"))
                (List.combine es lams);
+             print_endline (Buffer.contents buf)
+           | "LOCB" ->
+             let n = next_int () in
+             let nb = next_nbrs n in
+             let k = match nb with [] -> 0 | l :: _ -> List.length l in
+             let kern = c08_mof (next_mat n n) in
+             let nbr = c08_nbrs_of nb in
+             Buffer.clear buf;
+             Buffer.add_string buf "OK";
+             for i = 0 to n - 1 do
+               List.iter
+                 (fun row -> List.iter (fun x -> Buffer.add_char buf ' '; Buffer.add_string buf (token_of_q x)) row)
+                 (c08_local_gram (nat_of_int k) kern (nbr (nat_of_int i)))
+             done;
              print_endline (Buffer.contents buf)
            | "EMB" ->
              let n = next_int () in
